@@ -251,7 +251,7 @@ def step (s : St) (w : List String) : St × String :=
       let s1 := if s.kind0 = "pndb" then setTrie s1 0 { t with db := { t.db with current := s1.ps.nodes } } else s1
       (s1, "ok")
     | none => (s, "bad-op")
-  | ["save-fail"] => (match findTrie s 0 with | some _ => (s, "ok") | none => (s, "bad-op"))
+  | "save-fail" :: _ => (match findTrie s 0 with | some _ => (s, "ok") | none => (s, "bad-op"))
   | ["crash-save", k] =>
     match findTrie s 0 with
     | some (_, t) => let s' := doSave s t (some k.toNat!); (s', "ok " ++ rootStr t.root ++ " n=" ++ nodeCount s')
